@@ -91,6 +91,54 @@ func runShutChild(cfg runCfg, emit func(Case)) error {
 		_ = c0.SetRaw("old", 1000000000, nil, []byte("x"))
 		time.Sleep(20 * time.Millisecond)
 	}
+	if in.Racer == "rearm" {
+		// two pending deadlines, the later one armed first; then the shutdown; then wait past both.  A timer
+		// that is still alive after the store shut down fires into a closed database.
+		now := uint32(time.Now().Unix())
+		_ = c0.SetRaw("late", now+2, nil, []byte("x"))
+		_ = c0.SetRaw("early", now+1, nil, []byte("y"))
+		sd := make(chan struct{})
+		go func() {
+			defer func() {
+				if r := recover(); r != nil {
+					say("PANIC shutdown: %v", r)
+					os.Exit(7)
+				}
+			}()
+			switch in.Shutdown {
+			case "cad":
+				_ = h1.CloseAndDelete(ctxBg)
+			case "close_last":
+				h0.Close(ctxBg)
+				h1.Close(ctxBg)
+			case "close_one":
+				h1.Close(ctxBg)
+			case "drop":
+				_ = h1.DropDataStore(cname)
+			}
+			close(sd)
+		}()
+		select {
+		case <-sd:
+		case <-time.After(5 * time.Second):
+			say("DEADLOCK the shutdown call did not finish")
+			os.Exit(3)
+		}
+		time.Sleep(2700 * time.Millisecond)
+		storeDown := in.Shutdown == "cad" || (in.Shutdown == "close_last" && !in.InMem)
+		if storeDown {
+			buf := make([]byte, 1<<20)
+			n := runtime.Stack(buf, true)
+			for _, g := range strings.Split(string(buf[:n]), "\n\n") {
+				if strings.Contains(g, "rosmar.(*expiryManager).runExpiry") {
+					say("LEAK a timer callback is running after the store was shut down")
+					os.Exit(5)
+				}
+			}
+		}
+		say("OK")
+		os.Exit(0)
+	}
 	arrived := make(chan struct{}, 1)
 	release := make(chan struct{})
 	var armed int32 = 1
@@ -279,7 +327,7 @@ func execShut(in shutInput, scratch string) (Case, error) {
 		}
 		c.Notes = append(c.Notes, keep)
 	}
-	racers := map[string]string{"write": "RWrite", "subdoc": "RSubdoc", "feedstart": "RFeedStart", "view": "RView", "timer": "RTimer", "close": "RClose"}
+	racers := map[string]string{"write": "RWrite", "subdoc": "RSubdoc", "feedstart": "RFeedStart", "view": "RView", "timer": "RTimer", "close": "RClose", "rearm": "RRearm"}
 	shuts := map[string]string{"cad": "SCad", "close_last": "SCloseLast", "close_one": "SCloseOne", "drop": "SDrop"}
 	c.CoqInput = C("mkShutCase", B(in.InMem), C(racers[in.Racer]), S(in.Point), C(shuts[in.Shutdown]))
 	c.CoqObs = C(outcome)
@@ -294,12 +342,13 @@ var shutPoints = map[string][]string{
 	"view":      {"txn.begin", "txn.precommit"},
 	"timer":     {"expiry.fire", "expiry.window", "txn.begin", "cas.beforePost"},
 	"close":     {"close.unregistered"},
+	"rearm":     {"none"},
 }
 
 func allShut() []shutInput {
 	var l []shutInput
 	for _, mem := range []bool{true, false} {
-		for _, racer := range []string{"write", "subdoc", "feedstart", "view", "timer", "close"} {
+		for _, racer := range []string{"write", "subdoc", "feedstart", "view", "timer", "close", "rearm"} {
 			for _, p := range shutPoints[racer] {
 				for _, sd := range []string{"cad", "close_last", "close_one", "drop"} {
 					if racer == "close" && sd == "close_one" {
